@@ -35,10 +35,13 @@ type Proxy struct {
 	NestedFailThenWrite         bool // a revert happened, then another write: the shape of the journal counter defect
 	MutationsInStatic           int
 	Panic                       interface{}
+	// CodeOverwritten: addresses on which the EVM set code although the account already held code (a second CREATE of the same
+	// caller in one transaction lands on the same address: the collision test only knows accounts of earlier blocks)
+	CodeOverwritten map[common.Address]bool
 }
 
 func NewProxy(am *account.Manager) *Proxy {
-	return &Proxy{AM: am, marks: map[int]int{}, Touched: map[common.Address]bool{}}
+	return &Proxy{AM: am, marks: map[int]int{}, Touched: map[common.Address]bool{}, CodeOverwritten: map[common.Address]bool{}}
 }
 
 func (p *Proxy) record(desc string, do func(am *account.Manager)) {
@@ -104,6 +107,9 @@ func (r *recAccount) SetBalance(b *big.Int) {
 
 func (r *recAccount) SetCode(c types.Code) {
 	cp := types.Code(common.CopyBytes(c))
+	if old, err := r.AccountAccessor.GetCode(); err == nil && len(old) > 0 {
+		r.p.CodeOverwritten[r.addr] = true
+	}
 	r.p.record(fmt.Sprintf("SetCode(%s,%d bytes)", r.addr.Hex()[34:], len(c)), func(am *account.Manager) { am.GetAccount(r.addr).SetCode(cp) })
 	r.AccountAccessor.SetCode(c)
 }
